@@ -312,6 +312,10 @@ where
     ) -> Option<ActionT> {
         let mut recoverer = None;
         let mut recovery_budget = Duration::from_millis(RECOVERY_TIME_BUDGET);
+        #[cfg(grmtools_verif)]
+        if let Some(ms) = cfgrammar::verif::recovery_budget_ms() {
+            recovery_budget = Duration::from_millis(ms);
+        }
         loop {
             debug_assert_eq!(astack.len(), spans.len());
             let stidx = *pstack.last().unwrap();
@@ -380,6 +384,15 @@ where
                         });
                     }
 
+                    #[cfg(grmtools_verif)]
+                    cfgrammar::verif::emit(|| {
+                        format!(
+                            "{{\"ev\":\"recover_in\",\"laidx\":{},\"pstack\":{:?},\"spans\":{:?}}}",
+                            laidx,
+                            pstack.iter().map(|x| usize::from(*x)).collect::<Vec<_>>(),
+                            spans.iter().map(|x| [x.start(), x.end()]).collect::<Vec<_>>()
+                        )
+                    });
                     let before = Instant::now();
                     let finish_by = before + recovery_budget;
                     let (new_laidx, repairs) = recoverer
@@ -391,6 +404,18 @@ where
                     recovery_budget = recovery_budget
                         .checked_sub(after - before)
                         .unwrap_or_else(|| Duration::new(0, 0));
+                    #[cfg(grmtools_verif)]
+                    cfgrammar::verif::emit(|| {
+                        format!(
+                            "{{\"ev\":\"recover_out\",\"laidx\":{},\"pstack\":{:?},\"spans\":{:?},\"nrepairs\":{},\"elapsed_ms\":{},\"budget_left_ms\":{}}}",
+                            new_laidx,
+                            pstack.iter().map(|x| usize::from(*x)).collect::<Vec<_>>(),
+                            spans.iter().map(|x| [x.start(), x.end()]).collect::<Vec<_>>(),
+                            repairs.len(),
+                            (after - before).as_millis(),
+                            recovery_budget.as_millis()
+                        )
+                    });
                     let keep_going = !repairs.is_empty();
                     let la_lexeme = self.next_lexeme(laidx);
                     errors.push(
